@@ -672,7 +672,7 @@ pub fn main(args: &[String]) -> i32 {
             }
             "chain" => {
                 let max_chain = o.num("max-chain", 300) as usize;
-                let sizes: Vec<usize> = [9usize, 17, 31, 32, 33, 63, 64, 65, 66, 127, 128, 129, 130, 191, 192, 193, 194, 257, 300]
+                let sizes: Vec<usize> = [9usize, 17, 31, 32, 33, 63, 64, 65, 66, 127, 128, 129, 130, 191, 192, 193, 194, 249, 250]
                     .into_iter().filter(|s| *s <= max_chain).collect();
                 let n_ops = sizes[(i as usize) % sizes.len()];
                 let pat = (((i as usize) / sizes.len() + stream as usize) % 6) as u8;
